@@ -84,6 +84,13 @@ func cmdVerify(args []string) {
 		for _, e := range r.Errs {
 			fmt.Println("   ERROR:", e)
 		}
+		seenW := map[string]bool{}
+		for _, e := range r.Warns {
+			if !seenW[e] {
+				seenW[e] = true
+				fmt.Println("   warn:", e)
+			}
+		}
 		for _, o := range r.Obs {
 			if *quietOK && o.Status == "proved" {
 				continue
